@@ -9,6 +9,7 @@ import ast
 from .. import rx, fmtsrc
 from ..cfg import cfg_of
 from ..consteval import UNKNOWN
+from ..core import AnalysisError
 from ..lang import Lang
 from ..srcmodel import walk_own, const_str, FuncInfo
 from .common import unparse
@@ -515,8 +516,97 @@ def rule_agree(ctx, res, schema):
     res.require_min('R-C09-agree', 20)
 
 
+def rule_semis(ctx, res):
+    """`_get_semis` (the statement separator echo) decided by evaluation:
+    the echo writer's method is run (concrete-control abstract interpreter)
+    on a token list that holds k semicolons followed by another token, with
+    the spacing hook replaced by a stand-in returning a distinct symbolic run
+    each time.  The result must be run0 `;` run1 `;` .. run_k and the cursor
+    must stand on the token after the last semicolon -- whatever loop form
+    computes it."""
+    from ..absint import cx as CX
+    from ..absint.symx import BV
+    model = ctx.model
+    cls = model.cls(L + ':LuaASTEchoWriter')
+    f = model.lookup_method(cls, '_get_semis')
+    if f is None:
+        res.vanished('R-C09-semis', cls.qual, '_get_semis', 'method missing')
+        return
+    problems = []
+    n_eval = 0
+    for k in (0, 1, 2, 3):
+        cxi = CX.Cx(model, ctx.consts)
+        sym = CX.ClassVal(model.cls('pico8.lua.lexer:TokSymbol'))
+        name = CX.ClassVal(model.cls('pico8.lua.lexer:TokName'))
+        runs = []
+
+        def spaces(cx, args, kw, bound=None, runs=runs):
+            r = CX.Seq('bytes', [BV.source(('run', len(runs)), 8)])
+            runs.append(r)
+            return r
+        cxi.hooks = {
+            L + ':LuaASTEchoWriter._get_code_for_spaces': spaces,
+            L + ':LuaFormatterWriter._get_code_for_spaces': spaces,
+        }
+
+        def go():
+            toks = [cxi.call(sym, [b';'], {}) for _ in range(k)]
+            toks.append(cxi.call(name, [b'x'], {}))
+            toks.append(cxi.call(sym, [b';'], {}))
+            o = CX.Obj(cls)
+            o.attrs['_tokens'] = toks
+            o.attrs['_pos'] = 0
+            o.attrs['_args'] = {}
+            o.attrs['_indent'] = 0
+            r = cxi.call(cxi.getattr(o, '_get_semis'),
+                         [CX.Opaque('node', attrs={'end_pos': len(toks),
+                                                   'start_pos': 0})], {})
+            return r, o.attrs['_pos']
+        try:
+            paths = cxi.explore(go)
+            if len(paths) != 1 or paths[0][0]:
+                raise CX.CxError('control flow depends on the spacing text')
+            kind, val = paths[0][1]
+            if kind == 'raise':
+                problems.append('{} semicolon(s): raises {}'.format(
+                    k, val.tname))
+                continue
+            text, pos = val
+        except AnalysisError as e:
+            res.undecided('R-C09-semis', f.qual, 'separator echo',
+                          'evaluation could not follow _get_semis: ' +
+                          str(e)[:120], f.loc)
+            return
+        n_eval += 1
+        got = cxi.items(text)
+        want = []
+        for j in range(k + 1):
+            if j < len(runs):
+                want.extend(runs[j].items)
+            if j < k:
+                want.append(ord(';'))
+        same = len(got) == len(want) and len(runs) == k + 1 and all(
+            (x is y) or (isinstance(x, int) and isinstance(y, int) and x == y)
+            for x, y in zip(got, want))
+        if not same:
+            problems.append(
+                '{} semicolon(s) before a statement are echoed as {} '
+                'element(s) with {} `;` (spacing hook called {} times)'
+                .format(k, len(got), sum(1 for x in got if x == ord(';')),
+                        len(runs)))
+        elif pos != k:
+            problems.append('{} semicolon(s): the cursor ends at token {} '
+                            'instead of {}'.format(k, pos, k))
+    res.check(not problems, 'R-C09-semis', f.qual,
+              'statement separators: every `;` consumed is written, with '
+              'the spacing in front of it (evaluated)',
+              '{} token lists evaluated (0-3 semicolons)'.format(n_eval),
+              '; '.join(problems[:2]), f.loc, semantic=True)
+
+
 def run(ctx, res):
     rule_eow(ctx, res)
+    rule_semis(ctx, res)
     rule_hooks(ctx, res)
     rule_wsregex(ctx, res)
     schema = rule_schema(ctx, res)
